@@ -6,7 +6,6 @@ pub mod rustix_fs {
     pub type Stat = super::Stat;
 }
 /// A5: f_type identifies the filesystem; the inode number of a procfs root is 1
-pub uninterp spec fn ino_of(fd: int) -> u64;
 pub uninterp spec fn stat_fails(fd: int) -> bool;
 pub uninterp spec fn fd_path(n: int) -> Seq<u8>;       // "fd/<n>" in decimal
 pub uninterp spec fn cwd_path() -> Seq<u8>;           // "cwd"
